@@ -299,7 +299,7 @@ def valid_document(doc):
 
 VOCABULARY = ["entries", "data", "type", "sub:type", "bins", "values", "name", "w", "v", "center", "atleast", "nanflow", "low"]
 
-JUNK = {"str": "x", "list": [], "dict": {}, "null": None, "numlist": [1.5], "strdict": {"x": "y"}}
+JUNK = {"str": "x", "list": [], "dict": {}, "null": None, "numlist": [1.5], "strdict": {"x": "y"}, "numstr": "1.5", "infstr": "Infinity"}
 
 
 def struct_mutants(doc):
@@ -331,7 +331,7 @@ def struct_mutants(doc):
         g = G[ptype]
         where = "%s@%s" % (ptype, "/".join(str(p) for p in path))
         if g is None:
-            for how in ("str", "list", "dict", "null"):
+            for how in ("str", "list", "dict", "null", "numstr", "infstr"):
                 m = copy.deepcopy(doc)
                 set_path(m, path, JUNK[how])
                 yield "retype-count:%s %s" % (how, where), m
@@ -379,7 +379,7 @@ def struct_mutants(doc):
 def _mut_d(doc, path, d, key, where):
     k = d[0]
     if k in ("num", "entries"):
-        for how in ("str", "list", "dict", "null"):
+        for how in ("str", "list", "dict", "null", "numstr", "infstr"):
             m = copy.deepcopy(doc)
             set_path(m, path, JUNK[how])
             yield "retype:%s:%s %s" % (key, how, where), m
